@@ -240,6 +240,20 @@ func optOf(t *rapid.T, label string, v string) Opt {
 	return S(v)
 }
 
+// NameIDFormats the simulator stamps on NameIDs.
+var NameIDFormats = []string{"urn:oasis:names:tc:SAML:1.1:nameid-format:emailAddress", "urn:oasis:names:tc:SAML:1.1:nameid-format:unspecified", "urn:oasis:names:tc:SAML:2.0:nameid-format:persistent", "urn:oasis:names:tc:SAML:2.0:nameid-format:transient", ""}
+
+// genNameID: free text, or an e-mail shaped name whose parts mix case and use characters with surprising
+// case mappings (Kelvin sign, dotted capital I, sharp s, final sigma) — a subject is what was signed, byte for byte.
+func genNameID(t *rapid.T, o ModelOpts) string {
+	if o.PlainValues || rapid.IntRange(0, 3).Draw(t, "nameIDEmail") != 0 {
+		return o.text(t, "nameID")
+	}
+	local := rapid.SampledFrom([]string{"alice", "Alice", "ALICE", "mike", "a.b+c", "\u00e9lise", "stra\u00dfe"}).Draw(t, "nameIDLocal")
+	dom := rapid.SampledFrom([]string{"example.com", "Example.COM", "EXAMPLE.com", "\u212Aorp.example", "\u0130.example", "\u03a3\u03a3.example", "xn--bcher-kva.example", "example.com.", "[10.0.0.1]"}).Draw(t, "nameIDDomain")
+	return local + "@" + dom
+}
+
 // GenAssertionModel draws an assertion that is valid for the SP at its clock.
 func GenAssertionModel(o ModelOpts) *rapid.Generator[AssertionModel] {
 	return rapid.Custom(func(t *rapid.T) AssertionModel {
@@ -250,7 +264,7 @@ func GenAssertionModel(o ModelOpts) *rapid.Generator[AssertionModel] {
 			IssueInstant: S(GenTimeString(now.Add(-time.Minute)).Draw(t, "aIssueInstant")),
 			Issuer:       S(o.SP.IdPIssuer),
 			HasSubject:   true,
-			NameID:       S(o.text(t, "nameID")),
+			NameID:       S(genNameID(t, o)),
 			HasSC:        true, SCMethod: S(Bearer), HasSCD: true,
 			Recipient:      S(o.SP.ACS),
 			SCNotOnOrAfter: S(GenTimeString(now.Add(5*time.Minute)).Draw(t, "scNOOA")),
@@ -261,6 +275,9 @@ func GenAssertionModel(o ModelOpts) *rapid.Generator[AssertionModel] {
 		}
 		if o.SP.IdPIssuer == "" {
 			a.Issuer = S(o.text(t, "aIssuerFree"))
+		}
+		if rapid.Bool().Draw(t, "nameIDFormatSet") {
+			a.NameIDFormat = S(rapid.SampledFrom(NameIDFormats).Draw(t, "nameIDFormat"))
 		}
 		nr := rapid.IntRange(0, 2).Draw(t, "nRestrictions")
 		for i := 0; i < nr; i++ {
@@ -286,8 +303,13 @@ func GenAssertionModel(o ModelOpts) *rapid.Generator[AssertionModel] {
 				a.ProxyAudience = append(a.ProxyAudience, o.text(t, "proxyAud"))
 			}
 		}
-		a.HasAttrStmt = true
+		// an assertion without AttributeStatement is only acceptable to an SP that allows it
+		a.HasAttrStmt = !(o.SP.AllowMissing && rapid.IntRange(0, 2).Draw(t, "noAttrStmt") == 0)
+		a.AttrFirst = rapid.IntRange(0, 3).Draw(t, "attrStmtFirst") == 0
 		nat := rapid.IntRange(0, 5).Draw(t, "nAttrs")
+		if !a.HasAttrStmt {
+			nat = 0
+		}
 		names := map[string]bool{}
 		for i := 0; i < nat; i++ {
 			name := o.attr(t, "attrName")
@@ -350,6 +372,11 @@ func GenResponseModel(o ModelOpts) *rapid.Generator[ResponseModel] {
 		if o.SP.IdPIssuer == "" {
 			m.Issuer = S(o.text(t, "rIssuerFree"))
 		}
+		if rapid.IntRange(0, 7).Draw(t, "subStatus") == 0 {
+			// a subordinate code and a message under a top-level Success: unusual, legal, irrelevant to acceptance
+			m.SubCodes = []string{rapid.SampledFrom([]string{"urn:oasis:names:tc:SAML:2.0:status:PartialLogout", "urn:example:idp:status:step-up-skipped", "urn:oasis:names:tc:SAML:2.0:status:AuthnFailed"}).Draw(t, "subCode")}
+			m.StatusMsg = optOf(t, "statusMsg", "ok")
+		}
 		if rapid.Bool().Draw(t, "destSet") {
 			m.Destination = S(o.SP.ACS)
 		} else if rapid.Bool().Draw(t, "destEmpty") {
@@ -389,6 +416,7 @@ func GenSPConfig(txt, attrTxt TextOpts) *rapid.Generator[SPConfig] {
 		if rapid.IntRange(0, 3).Draw(t, "noIssuer") == 0 {
 			c.IdPIssuer = ""
 		}
+		c.AllowMissing = rapid.Bool().Draw(t, "allowMissingAttributes")
 		// clock: any instant inside the wide window, any zone
 		base := time.Date(2021, 1, 1, 0, 0, 0, 0, time.UTC).UnixNano()
 		span := int64(18 * 365 * 24 * time.Hour)
